@@ -222,3 +222,20 @@ def sum_axioms(a, points_lo_hi):
         out.append(S(T, zl, zl) == zero)
         out.append(z3.Implies(zh >= zl, S(T, zl, zh + 1) == S(T, zl, zh) + z3.Select(T, zh)))
     return out
+
+
+def sqrt(x):
+    """square root (symbolic: the uninterpreted SQRT of the numpy shim, same axioms; native: math.sqrt)"""
+    if is_sym(x):
+        from .npshim import sqrt_uf
+        from .proxies import to_real
+        xz = to_real(x).z
+        r = sqrt_uf()(xz)
+        eng().pc.append(z3.Implies(xz >= 0, z3.And(r >= 0, (r > 0) == (xz > 0))))
+        return SReal(r)
+    import math
+    return math.sqrt(x)
+
+
+def absval(x):
+    return abs(x)
